@@ -10,6 +10,7 @@ CONSTANTS
   MaxExits = 0
   MaxTimers = 0
   MaxShutdowns = 1
+  MaxRestores = 0
   RaceTimer = FALSE
   ExtSubs <- MCExtSubs
   IntNames = {}
